@@ -29,6 +29,17 @@ def run(chk: Check) -> None:
     persisted_fields(chk)
     load_is_deterministic(chk)
     snapshot_isolation(chk)
+    # the context is saved as ONE object graph (the copy is taken of the whole saved state): copying it entry by entry would duplicate what two
+    # entries share, and the resumed run would update one copy while reading the other
+    cm = prog.func('mixins.ContextMixin.save_instance_state')
+    from ..rules import Resolver as _Rc
+    st_ = [n for n in ast.walk(cm.node) if isinstance(n, ast.Assign) and isinstance(n.targets[0], ast.Subscript) and norm(n.targets[0].value) == cm.params[1]]
+    ok = len(st_) == 1
+    if ok:
+        v_ = _Rc(cm).expand(st_[0].value)
+        per_entry = any(isinstance(x, (ast.DictComp, ast.ListComp, ast.GeneratorExp)) and any(isinstance(c_, ast.Call) and last_name(c_) in ('deepcopy', 'copy') for c_ in ast.walk(x)) for x in ast.walk(v_))
+        ok = not per_entry and 'self._context' in norm(v_)
+    chk.ob('SYM-workchain', cm, ok, 'the context is stored as one value (no entry-by-entry copy that would break sharing between entries)', node=st_[0] if st_ else None, kind='context-one-graph')
 
     # 1. stepper reference table
     for name in ('_BlockStepper', '_IfStepper'):
